@@ -88,6 +88,11 @@ type World struct {
 	mu     sync.Mutex
 	byTask map[string]*taskRef // task id -> (env, position)
 	hooks  map[string]func()   // probe id -> callback run inside the probe
+
+	// optional overrides (nil: the flat workflow of WorkflowYAML, role path "<name>.t<i>"); h03 uses
+	// them for workflows with nested aggregator roles
+	YAMLOf func(name string, tasks []Task, launch []string, calls []Call, deployTimeout string) string
+	PathOf func(name string, i int) string
 }
 
 type taskRef struct {
@@ -269,7 +274,12 @@ func ParseOutcomes(ss []string, n int) []simcore.CmdOutcome {
 	return out
 }
 
-func (e *Env) rolePath(i int) string { return fmt.Sprintf("%s.t%d", e.Name, i) }
+func (e *Env) rolePath(i int) string {
+	if e.W != nil && e.W.PathOf != nil {
+		return e.W.PathOf(e.Name, i)
+	}
+	return fmt.Sprintf("%s.t%d", e.Name, i)
+}
 
 // Mark remembers where the event / call logs stand; Reported and Commanded are relative to it.
 func (e *Env) Mark() {
@@ -438,7 +448,12 @@ type CreateResult struct {
 // one at a time and only once the task is in the roster.  cfg are the outcomes of the CONFIGURE
 // command of the creation.  hangAfter bounds the wait for CreateEnvironment.
 func (w *World) Create(name string, tasks []Task, launch []string, cfg []string, calls []Call, deployTimeout string, hangAfter time.Duration) (*Env, CreateResult) {
-	y := WorkflowYAML(name, tasks, launch, calls, deployTimeout)
+	y := ""
+	if w.YAMLOf != nil {
+		y = w.YAMLOf(name, tasks, launch, calls, deployTimeout)
+	} else {
+		y = WorkflowYAML(name, tasks, launch, calls, deployTimeout)
+	}
 	if err := os.WriteFile(filepath.Join(w.Sim.RepoDir, "workflows", name+".yaml"), []byte(y), 0o644); err != nil {
 		return nil, CreateResult{Err: err}
 	}
@@ -587,4 +602,64 @@ func (e *Env) Finish(destroy bool) {
 	case <-done:
 	case <-time.After(5 * time.Second):
 	}
+}
+
+// ---------------------------------------------------------------- additions for C03
+
+// TaskYAML is the role entry of task i as WorkflowYAML writes it, indented by indent spaces
+// (for workflows with nested aggregator roles).
+func TaskYAML(i int, t Task, indent string) string {
+	return fmt.Sprintf("%s- name: \"t%d\"\n%s  constraints:\n%s    - attribute: machine_id\n%s      value: %s\n%s  task:\n%s    load: %s\n%s    critical: %v\n",
+		indent, i, indent, indent, indent, hostName(t.Host), indent, indent, "c"+t.Mode, indent, t.Crit)
+}
+
+// CallYAML is the role entry of call role k.
+func CallYAML(k int, c Call, indent string) string {
+	return fmt.Sprintf("%s- name: \"k%d\"\n%s  call:\n%s    func: verif.Probe(%q)\n%s    trigger: %s\n%s    timeout: 20s\n%s    critical: %v\n",
+		indent, k, indent, indent, c.Id, indent, c.Trigger, indent, indent, c.Critical)
+}
+
+// AgentOf / ExecutorOf: the Mesos agent and executor ids of a launched task.
+func (w *World) AgentOf(tid string) string    { return w.Sim.LiveTasks()[tid].Agent }
+func (w *World) ExecutorOf(tid string) string { return w.Sim.LiveTasks()[tid].Executor }
+
+// RunEndVar: the run_end_time_ms variable of the workflow: 0 not defined, 1 "", 2 set.
+func (e *Env) RunEndVar() int {
+	if e.E == nil || e.E.Workflow() == nil {
+		return 0
+	}
+	v, ok := e.E.Workflow().GetUserVars().Get("run_end_time_ms")
+	if !ok {
+		return 0
+	}
+	if v == "" {
+		return 1
+	}
+	return 2
+}
+
+// RosterTaskId finds the task of a role path in the core's roster ("" if none): usable before
+// Create has returned (inside a hook of the creation).
+func (w *World) RosterTaskId(rolePath string) string {
+	for _, t := range w.Sim.Taskman.VerifRoster() {
+		if t.RolePath == rolePath {
+			return t.TaskId
+		}
+	}
+	return ""
+}
+
+// RoleViewOf: (state code, status code) of the role with this path in env's workflow.
+func (w *World) RoleViewByPath(envId uid.ID, rolePath string) [2]int {
+	env, err := w.Sim.Envman.Environment(envId)
+	if err != nil || env == nil || env.Workflow() == nil {
+		return [2]int{}
+	}
+	var out [2]int
+	workflow.LeafWalk(env.Workflow(), func(r workflow.Role) {
+		if r.GetPath() == rolePath {
+			out = [2]int{StateCode[r.GetState().String()], StatusCode[r.GetStatus().String()]}
+		}
+	})
+	return out
 }
